@@ -29,6 +29,7 @@ UNQUOTERS = ["UNQUOTER", "PATH_UNQUOTER", "PATH_SAFE_UNQUOTER", "QS_UNQUOTER"]
 UNDECODABLE = ["%FF", "%C3x", "%C3", "%E2%82z", "%80", "%zz", "%", "%F0%9F", "%ED%A0%80", "%C0%AF"]
 UNQ_ENUM_CAP = 160
 _battery_ref_cache = {}
+_keep = []
 
 
 def _A():
@@ -49,17 +50,49 @@ def install_windows():
 
     from yarl import _quoting
 
+    import functools
+
     types_ = (_quoting._Quoter, _quoting._Unquoter)
+
+    def is_quoter_callable(v, depth=0):
+        # a quoter instance, or another spelling of "call this quoter": a bound method of one
+        # (X_QUOTER.requote, X_QUOTER.__call__), a functools.partial over one
+        if isinstance(v, types_):
+            return True
+        if depth > 2 or isinstance(v, type):
+            return False
+        if isinstance(v, functools.partial):
+            return is_quoter_callable(v.func, depth + 1)
+        owner = getattr(v, "__self__", None)
+        return callable(v) and owner is not None and isinstance(owner, types_)
+
+    def rebind(ns_owner, items):
+        n = 0
+        for k, v in items:
+            if is_quoter_callable(v):
+                w = _wrapped.get(id(v))
+                if w is None:
+                    w = A.wrap(v)
+                    _wrapped[id(v)] = w
+                    _keep.append(v)
+                try:
+                    setattr(ns_owner, k, w)
+                    n += 1
+                except (AttributeError, TypeError):
+                    pass
+        return n
+
     n = 0
     for name, m in list(sys.modules.items()):
         if name == "yarl" or name.startswith("yarl."):
-            for k, v in list(vars(m).items()):
-                if isinstance(v, types_):
-                    w = _wrapped.get(id(v))
-                    if w is None:
-                        w = _wrapped[id(v)] = A.wrap(v)
-                    setattr(m, k, w)
-                    n += 1
+            n += rebind(m, list(vars(m).items()))
+            # quoters kept as class attributes of the package's own (Python) classes
+            for v in list(vars(m).values()):
+                if isinstance(v, type) and getattr(v, "__module__", None) == name and v not in types_:
+                    try:
+                        n += rebind(v, [(k2, v2) for k2, v2 in list(vars(v).items()) if not k2.startswith("__")])
+                    except Exception:  # noqa
+                        pass
     return n
 
 
